@@ -359,7 +359,7 @@ func init() {
 		ruleToGC(r)
 		ruleTailRecovery(r)
 		// "keeps behaving as in C01 afterwards, including through later GC cycles"
-		r.support(grpOrder, []string{"pool-flush-complete", "scan-complete-before-truncate", "primary-mark", "gc-mark-guard", "gc-not-current", "deleted-check", "merge-framing", "span-pair", "rescan-applies-all",
+		r.support(grpOrder, []string{"chunk-file-fresh", "remap-offset", "chunk-accounting", "pool-flush-complete", "scan-complete-before-truncate", "primary-mark", "gc-mark-guard", "gc-not-current", "deleted-check", "merge-framing", "span-pair", "rescan-applies-all",
 			"firstfile-guard", "free-after-index", "freelist-consume", "gc-flush-first", "scan-from-firstfile", "upgrade-order"})
 	},
 		"Decides only the ordering discipline that crash safety rests on, not crash behaviour: in every store-level flush sequence the primary is flushed before the index and the freelist after it; Index.Flush publishes bucket positions only after the log write succeeded; GC unlinks a data file only after the header recording FirstFile+1 was written successfully and only the header's first file; legacy files are removed only after the new header exists; header files are replaced by write-temp-then-rename, never rewritten in place; the bucket snapshot is installed by rename after flush+close and removed once opened; an unprocessed freelist hand-over file is never overwritten. Not covered (the bulk of C03): torn appends, the Put-vs-commit interleaving, GC crash windows, recovery behaviour.",
